@@ -24,6 +24,9 @@ NOISE = ['// noise', '// first\n// second', '/* block */', '/* multi\n   line */
          '//', '/**/', '// ünï 中']
 
 
+MID_NOISE = [t for t in NOISE if t.startswith('/*') and '\n' not in t]
+
+
 def nlines(doc, fseed, pinned) -> int:
     return len(Printer(Form(fseed, pinned)).lines(doc))
 
@@ -34,7 +37,7 @@ def main(argv: List[str]) -> int:
     rep.rule = ('case = (document seed, surface form, set of inserted comments); capture cases carry >= 1 declared comment; '
                 'inert cases insert >= 1 extra comment; distinct by (seed, form, insertions); all are non-trivial')
     rep.assumptions = ['comment text is compared line-wise with surrounding blanks trimmed',
-                       'comments are written on lines of their own or at line ends, never between two tokens of a line']
+                       'extra comments are written on lines of their own, at line ends, and as /* */ blocks inside a line at the places the printer marks (settings lists, before a settings list, before an opening brace, after `note:` / `default:`)']
     n = doccheck.budget(120, 2000)
     nrand = doccheck.budget(4, 10)
     lo = core.seed() * 100000 + 60001
@@ -55,15 +58,16 @@ def main(argv: List[str]) -> int:
     for seed, doc in small:
         L = nlines(doc, None, {})
         for pos in range(L + 1):
-            for kind in ('own', 'trail'):
-                for text in r.sample(NOISE, doccheck.budget(2, 5)):
+            for kind in ('own', 'trail', 'mid'):
+                for text in r.sample(NOISE if kind != 'mid' else MID_NOISE, doccheck.budget(2, 4)):
                     tid += 1
                     items[tid] = {'tid': tid, 'doc': doc, 'allow': False, 'want': 'inert', 'fseed': None, 'pinned': {},
                                   'seed': seed, 'gen': 'Commented', 'variant': 'inert-every-gap', 'noise': [[kind, pos, text]]}
     for seed, doc in ds:
         for k in range(doccheck.budget(3, 8)):
             fseed = seed * 1000 + k
-            noise = [[r.choice(['own', 'trail']), r.randrange(10 ** 6), r.choice(NOISE)] for _ in range(r.randint(1, 6))]
+            noise = [[k, r.randrange(10 ** 6), r.choice(NOISE if k != 'mid' else MID_NOISE)]
+                     for k in (r.choice(['own', 'trail', 'mid', 'mid']) for _ in range(r.randint(1, 6)))]
             tid += 1
             items[tid] = {'tid': tid, 'doc': doc, 'allow': False, 'want': 'inert', 'fseed': fseed, 'pinned': {},
                           'seed': seed, 'gen': 'Commented', 'variant': 'inert-random', 'noise': noise}
